@@ -73,4 +73,152 @@ theorem encBigInt (x : Int) (hx : -(2:Int)^63 ≤ x ∧ x < (2:Int)^63) :
       byte_shift (by decide) x 32 hx, byte_shift (by decide) x 24 hx, byte_shift (by decide) x 16 hx,
       byte_shift (by decide) x 8 hx, byte_low (by decide) x hx]
 
+
+theorem or_shl (x b : Nat) (hb : b < 256) : x <<< 8 ||| b = x * 256 + b := by
+  rw [← Nat.shiftLeft_add_eq_or_of_lt (by omega : b < 2^8), Nat.shiftLeft_eq]
+
+/-- big-endian OR of shifted bytes in the shape the Go code writes it: Horner form -/
+theorem be2 (a b : Nat) (hb : b < 256) : a <<< 8 ||| b = a * 256 + b := or_shl a b hb
+
+theorem be4 (a b c d : Nat) (hb : b < 256) (hc : c < 256) (hd : d < 256) :
+    a <<< 24 ||| b <<< 16 ||| c <<< 8 ||| d = a * 2^24 + b * 2^16 + c * 2^8 + d := by
+  have e1 : a <<< 24 = (a <<< 8) <<< 16 := by rw [← Nat.shiftLeft_add]
+  rw [e1, ← Nat.shiftLeft_or_distrib, or_shl a b hb]
+  have e2 : (a * 256 + b) <<< 16 = ((a * 256 + b) <<< 8) <<< 8 := by rw [← Nat.shiftLeft_add]
+  rw [e2, ← Nat.shiftLeft_or_distrib, or_shl _ c hc, or_shl _ d hd]
+  omega
+
+theorem be8 (a b c d e f g h : Nat) (hb : b < 256) (hc : c < 256) (hd : d < 256) (he : e < 256) (hf : f < 256)
+    (hg : g < 256) (hh : h < 256) :
+    a <<< 56 ||| b <<< 48 ||| c <<< 40 ||| d <<< 32 ||| e <<< 24 ||| f <<< 16 ||| g <<< 8 ||| h
+      = a * 2^56 + b * 2^48 + c * 2^40 + d * 2^32 + e * 2^24 + f * 2^16 + g * 2^8 + h := by
+  have s (x : Nat) (k : Nat) : x <<< (k + 8) = (x <<< 8) <<< k := by rw [← Nat.shiftLeft_add, Nat.add_comm]
+  rw [s a 48, ← Nat.shiftLeft_or_distrib, or_shl a b hb,
+    s _ 40, ← Nat.shiftLeft_or_distrib, or_shl _ c hc,
+    s _ 32, ← Nat.shiftLeft_or_distrib, or_shl _ d hd,
+    s _ 24, ← Nat.shiftLeft_or_distrib, or_shl _ e he,
+    s _ 16, ← Nat.shiftLeft_or_distrib, or_shl _ f hf,
+    s _ 8, ← Nat.shiftLeft_or_distrib, or_shl _ g hg, or_shl _ h hh]
+  omega
+
+theorem getD_map (l : List UInt8) (i : Nat) :
+    (l.map (·.toBitVec)).getD i 0#8 = (l.getD i 0).toBitVec := by
+  simp [List.getD_eq_getElem?_getD, List.getElem?_map]
+
+theorem toS_of_toNat {w : Nat} (hw : 0 < w) (v : BitVec w) : v.toInt = toS w v.toNat := by
+  obtain ⟨m, rfl⟩ : ∃ m, w = m + 1 := ⟨w - 1, by omega⟩
+  have hlt : v.toNat < 2 * 2^m := by have := v.isLt; rwa [Nat.pow_succ, Nat.mul_comm] at this
+  have cm : (2:Int)^m = ((2^m : Nat) : Int) := by norm_cast
+  have c : (2:Int)^(m+1) = 2 * ((2^m : Nat) : Int) := by rw [Int.pow_succ, cm]; omega
+  have e' : (2:Nat)^(m+1) = 2 * 2^m := by rw [Nat.pow_succ]; omega
+  unfold toS
+  rw [BitVec.toInt_eq_toNat_cond, Nat.add_sub_cancel, c, cm, e']
+  generalize (2^m : Nat) = d at *
+  split
+  · rw [Int.emod_eq_of_lt (by omega) (by omega)]; omega
+  · have : ((v.toNat : Int) + d) = ((v.toNat : Int) - d) + 1 * (2 * (d : Int)) := by omega
+    rw [this, Int.add_mul_emod_self_right, Int.emod_eq_of_lt (by omega) (by omega)]; push_cast; omega
+
+theorem len_ne (n k : Nat) (h : n < 2^63) (hk : k < 2^63) : (BitVec.ofNat 64 n != BitVec.ofNat 64 k) = decide (n ≠ k) := by
+  by_cases e : n = k
+  · simp [e]
+  · simp only [e, ne_eq, not_false_eq_true, decide_true, bne_iff_ne]
+    intro h'
+    have := congrArg BitVec.toNat h'
+    simp at this; omega
+
+theorem byte_mod (x : UInt8) (w : Nat) (h : 8 ≤ w) : x.toNat % 2^w = x.toNat := by
+  have hb : x.toNat < 2^8 := UInt8.toNat_lt x
+  exact Nat.mod_eq_of_lt (Nat.lt_of_lt_of_le hb (Nat.pow_le_pow_right (by decide) h))
+
+theorem byte_shl (x : UInt8) (k w : Nat) (h : k + 8 ≤ w) :
+    (x.toNat % 2^w) <<< k % 2^w = x.toNat <<< k ∧ x.toNat <<< k < 2^(k+8) := by
+  have hb : x.toNat < 2^8 := UInt8.toNat_lt x
+  have h1 : x.toNat <<< k < 2^(k+8) := by
+    rw [Nat.shiftLeft_eq, Nat.pow_add, Nat.mul_comm]
+    exact Nat.mul_lt_mul_of_pos_left hb (Nat.two_pow_pos k)
+  rw [byte_mod x w (by omega), Nat.mod_eq_of_lt (Nat.lt_of_lt_of_le h1 (Nat.pow_le_pow_right (by decide) h))]
+  exact ⟨rfl, h1⟩
+
+/-- `decShort`: 0 unless exactly 2 bytes, else the big-endian int16 -/
+theorem decShort (l : List UInt8) (hl : l.length < 2^63) :
+    (Gen.Marshal.decShort (l.map (·.toBitVec))).toInt = Marshal.decShort l := by
+  unfold Gen.Marshal.decShort
+  rw [List.length_map, show (0x2#64 : BitVec 64) = BitVec.ofNat 64 2 from rfl, len_ne _ _ hl (by decide)]
+  rcases l with _ | ⟨a, _ | ⟨b, _ | ⟨c, t⟩⟩⟩
+  · simp [Marshal.decShort]
+  · simp [Marshal.decShort]
+  · simp only [List.map_cons, List.map_nil, List.length_cons, List.length_nil, Marshal.decShort]
+    rw [toS_of_toNat (by decide)]
+    congr 1
+    have ha := UInt8.toNat_lt a; have hb := UInt8.toNat_lt b
+    simp only [Nat.zero_add, Nat.reduceAdd, ne_eq, not_true_eq_false, decide_false, Bool.false_eq_true, if_false,
+      List.getD_cons_zero, List.getD_cons_succ, BitVec.toNat_or, BitVec.toNat_shiftLeft, BitVec.toNat_setWidth, UInt8.toNat_toBitVec]
+    rw [(byte_shl a 8 16 (by decide)).1, byte_mod b 16 (by decide), be2 _ _ hb]
+    omega
+  · simp only [List.length_cons, Marshal.decShort]
+    rfl
+
+/-- `decTiny` -/
+theorem decTiny (l : List UInt8) (hl : l.length < 2^63) :
+    (Gen.Marshal.decTiny (l.map (·.toBitVec))).toInt = Marshal.decTiny l := by
+  unfold Gen.Marshal.decTiny
+  rw [List.length_map, show (0x1#64 : BitVec 64) = BitVec.ofNat 64 1 from rfl, len_ne _ _ hl (by decide)]
+  rcases l with _ | ⟨a, _ | ⟨b, t⟩⟩
+  · simp [Marshal.decTiny]
+  · simp only [List.map_cons, List.map_nil, List.length_cons, List.length_nil, Marshal.decTiny]
+    rw [toS_of_toNat (by decide)]
+    simp
+  · simp [Marshal.decTiny]
+
+/-- `decInt`: 0 unless exactly 4 bytes, else the big-endian int32 -/
+theorem decInt (l : List UInt8) (hl : l.length < 2^63) :
+    (Gen.Marshal.decInt (l.map (·.toBitVec))).toInt = Marshal.decInt l := by
+  unfold Gen.Marshal.decInt
+  rw [List.length_map, show (0x4#64 : BitVec 64) = BitVec.ofNat 64 4 from rfl, len_ne _ _ hl (by decide)]
+  rcases l with _ | ⟨a, _ | ⟨b, _ | ⟨c, _ | ⟨d, _ | ⟨e, t⟩⟩⟩⟩⟩
+  · simp [Marshal.decInt]
+  · simp [Marshal.decInt]
+  · simp [Marshal.decInt]
+  · simp [Marshal.decInt]
+  · simp only [List.map_cons, List.map_nil, List.length_cons, List.length_nil, Marshal.decInt]
+    rw [toS_of_toNat (by decide)]
+    congr 1
+    have hb := UInt8.toNat_lt b; have hc := UInt8.toNat_lt c; have hd := UInt8.toNat_lt d
+    simp only [Nat.zero_add, Nat.reduceAdd, ne_eq, not_true_eq_false, decide_false, Bool.false_eq_true, if_false,
+      List.getD_cons_zero, List.getD_cons_succ, BitVec.toNat_or, BitVec.toNat_shiftLeft, BitVec.toNat_setWidth, UInt8.toNat_toBitVec]
+    rw [(byte_shl a 24 32 (by decide)).1, (byte_shl b 16 32 (by decide)).1, (byte_shl c 8 32 (by decide)).1,
+      byte_mod d 32 (by decide), be4 _ _ _ _ hb hc hd]
+    omega
+  · simp only [List.length_cons, Marshal.decInt]
+    rfl
+
+/-- `decBigInt`: 0 unless exactly 8 bytes, else the big-endian int64 -/
+theorem decBigInt (l : List UInt8) (hl : l.length < 2^63) :
+    (Gen.Marshal.decBigInt (l.map (·.toBitVec))).toInt = Marshal.decBigInt l := by
+  unfold Gen.Marshal.decBigInt
+  rw [List.length_map, show (0x8#64 : BitVec 64) = BitVec.ofNat 64 8 from rfl, len_ne _ _ hl (by decide)]
+  rcases l with _ | ⟨a, _ | ⟨b, _ | ⟨c, _ | ⟨d, _ | ⟨e, _ | ⟨f, _ | ⟨g, _ | ⟨h, _ | ⟨i, t⟩⟩⟩⟩⟩⟩⟩⟩⟩
+  · simp [Marshal.decBigInt]
+  · simp [Marshal.decBigInt]
+  · simp [Marshal.decBigInt]
+  · simp [Marshal.decBigInt]
+  · simp [Marshal.decBigInt]
+  · simp [Marshal.decBigInt]
+  · simp [Marshal.decBigInt]
+  · simp [Marshal.decBigInt]
+  · simp only [List.map_cons, List.map_nil, List.length_cons, List.length_nil, Marshal.decBigInt]
+    rw [toS_of_toNat (by decide)]
+    congr 1
+    have hb := UInt8.toNat_lt b; have hc := UInt8.toNat_lt c; have hd := UInt8.toNat_lt d
+    have he := UInt8.toNat_lt e; have hf := UInt8.toNat_lt f; have hg := UInt8.toNat_lt g; have hh := UInt8.toNat_lt h
+    simp only [Nat.zero_add, Nat.reduceAdd, ne_eq, not_true_eq_false, decide_false, Bool.false_eq_true, if_false,
+      List.getD_cons_zero, List.getD_cons_succ, BitVec.toNat_or, BitVec.toNat_shiftLeft, BitVec.toNat_setWidth, UInt8.toNat_toBitVec]
+    rw [(byte_shl a 56 64 (by decide)).1, (byte_shl b 48 64 (by decide)).1, (byte_shl c 40 64 (by decide)).1,
+      (byte_shl d 32 64 (by decide)).1, (byte_shl e 24 64 (by decide)).1, (byte_shl f 16 64 (by decide)).1,
+      (byte_shl g 8 64 (by decide)).1, byte_mod h 64 (by decide), be8 _ _ _ _ _ _ _ _ hb hc hd he hf hg hh]
+    omega
+  · simp only [List.length_cons, Marshal.decBigInt]
+    rfl
+
 end GenTie.C12
